@@ -3,8 +3,10 @@ package main
 import (
 	"fmt"
 	"go/ast"
+	"go/constant"
 	"go/token"
 	"go/types"
+	"math/big"
 	"strconv"
 
 	"golang.org/x/tools/go/ssa"
@@ -144,11 +146,48 @@ func (fr *Frame) execInstr(ins ssa.Instruction, st *State) error {
 			gargs = append(gargs, fr.val(a))
 		}
 		if mc, ok := t.Call.Value.(*ssa.MakeClosure); ok {
-			for _, b := range mc.Bindings {
+			cfn := mc.Fn.(*ssa.Function)
+			for i, b := range mc.Bindings {
+				if i < len(cfn.FreeVars) && freeVarReadOnly(cfn.FreeVars[i], map[ssa.Value]bool{}) {
+					continue // the goroutine only reads this variable
+				}
 				gargs = append(gargs, fr.val(b))
 			}
 		}
 		fr.escapeArgs(gargs)
+		// starting a goroutine must establish the precondition of the function it runs
+		if callee := t.Call.StaticCallee(); callee != nil && fr.dry == 0 {
+			if c := vc.eng.contractFor(callee); c != nil && len(c.Requires) > 0 {
+				env := map[string]bound{}
+				names := contractParamNames(c, callee, callee.Signature, callee.Signature.Recv() != nil)
+				for i, n := range names {
+					if i < len(t.Call.Args) {
+						env[n] = bound{fr.val(t.Call.Args[i]), t.Call.Args[i].Type()}
+					}
+				}
+				if mc, ok := t.Call.Value.(*ssa.MakeClosure); ok {
+					for i, fv := range callee.FreeVars {
+						if i < len(mc.Bindings) {
+							pt := fv.Type().(*types.Pointer).Elem()
+							env[fv.Name()] = bound{vc.load(st, fr.val(mc.Bindings[i]), pt), pt}
+						}
+					}
+				}
+				pkg := vc.eng.pkgTypes(c.Pkg)
+				for _, r := range c.Requires {
+					v, _, err := fr.evalIn(r.Text, pkg, env, st, st, nil)
+					if err != nil {
+						return fmt.Errorf("%s:%d: %v", r.File, r.Line, err)
+					}
+					nm := "go:" + shortName(callee.String()) + ":" + c.clauseName(r)
+					if fr.parent != nil {
+						nm = funcKey(fr.fn) + ":" + nm
+					}
+					vc.instantiateForGoal(v.C[0], nil)
+					vc.oblige(st, "pre", nm, v.C[0], t.Pos(), r.Text)
+				}
+			}
+		}
 		return nil
 	case *ssa.MakeClosure:
 		id := vc.fresh("closure."+t.Fn.Name(), "Int")
@@ -334,6 +373,9 @@ func (fr *Frame) execBinOp(t *ssa.BinOp, st *State) error {
 	}
 	rt := t.Type()
 	switch {
+	case isInteger(rt) && (t.Op == token.OR || t.Op == token.XOR) && disjointBits(t.X, t.Y):
+		// operands occupy disjoint bit ranges: | and ^ are +
+		fr.vals[t] = Value{C: []Term{vc.define(fr.vname(t), "Int", iAdd(x.C[0], y.C[0]))}}
 	case isInteger(rt):
 		if t.Op == token.QUO || t.Op == token.REM {
 			fr.implicit(st, "div", sNot(sEq(y.C[0], "0")), t.Pos(), isBinNode, "div "+t.Name())
@@ -757,11 +799,23 @@ func (fr *Frame) execLookup(t *ssa.Lookup, st *State) error {
 // channels
 
 func (fr *Frame) execSend(t *ssa.Send, st *State) error {
-	vc := fr.vc
 	ch := fr.val(t.Chan)
 	fr.chanSendEffect(st, ch.C[0])
-	_ = vc
+	fr.chanLastSent(st, ch.C[0], t.Chan.Type().Underlying().(*types.Chan).Elem(), fr.val(t.X))
 	return nil
+}
+
+// ghost: the value most recently sent on each channel (per element type)
+func chanLastKey(et types.Type) string { return "ghost.chanlast:" + typeKey(et) }
+
+func (fr *Frame) chanLastSent(st *State, ch Term, et types.Type, v Value) {
+	vc := fr.vc
+	for i, c := range comps(et) {
+		key := chanLastKey(et) + c.Suffix
+		srt := "(Array Int " + c.Sort + ")"
+		a := vc.get(st, key, srt)
+		vc.set(st, key, srt, sStore(a, ch, v.C[i]))
+	}
 }
 
 // ghost accounting: number of buffered items; a send completes only when there is room
@@ -815,6 +869,14 @@ func (fr *Frame) execSelect(t *ssa.Select, st *State) error {
 		if s.Dir == types.SendOnly {
 			nl = sIte(c, sStore(lenA, ch, iAdd(sSel(lenA, ch), "1")), nl)
 			ns = sIte(c, sStore(sentA, ch, iAdd(sSel(sentA, ch), "1")), ns)
+			et := s.Chan.Type().Underlying().(*types.Chan).Elem()
+			sv := fr.val(s.Send)
+			for k, cp := range comps(et) {
+				key := chanLastKey(et) + cp.Suffix
+				srt := "(Array Int " + cp.Sort + ")"
+				a := vc.get(st, key, srt)
+				vc.set(st, key, srt, sIte(c, sStore(a, ch, sv.C[k]), a))
+			}
 		} else {
 			nl = sIte(c, sStore(lenA, ch, iSub(sSel(lenA, ch), "1")), nl)
 			nr = sIte(c, sStore(recvA, ch, iAdd(sSel(recvA, ch), "1")), nr)
@@ -900,6 +962,23 @@ func fieldAddrWrites(v ssa.Value, seen map[ssa.Value]bool) bool {
 						return true
 					}
 				}
+				if _, ok := in.Type().Underlying().(*types.Map); ok {
+					// loaded map: updates and deletes are writes of the guarded data
+					if refs := in.Referrers(); refs != nil {
+						for _, r2 := range *refs {
+							switch u := r2.(type) {
+							case *ssa.MapUpdate:
+								if u.Map == in {
+									return true
+								}
+							case *ssa.Call:
+								if b, ok := u.Call.Value.(*ssa.Builtin); ok && b.Name() == "delete" {
+									return true
+								}
+							}
+						}
+					}
+				}
 			}
 		case *ssa.IndexAddr:
 			if fieldAddrWrites(in, seen) {
@@ -913,4 +992,106 @@ func fieldAddrWrites(v ssa.Value, seen map[ssa.Value]bool) bool {
 		}
 	}
 	return false
+}
+
+// bitMask: an over-approximation of the bits that can be set in the non-negative integer
+// value v (nil = unknown). Used to turn | of disjoint fields into +.
+func bitMask(v ssa.Value, depth int) *big.Int {
+	if depth > 12 {
+		return nil
+	}
+	switch x := v.(type) {
+	case *ssa.Const:
+		if x.Value == nil {
+			return big.NewInt(0)
+		}
+		if x.Value.Kind() == constant.Int {
+			n, ok := new(big.Int).SetString(x.Value.ExactString(), 10)
+			if ok && n.Sign() >= 0 {
+				return n
+			}
+		}
+		return nil
+	case *ssa.Convert:
+		from, to := x.X.Type(), x.Type()
+		if !isInteger(from) || !isInteger(to) {
+			return nil
+		}
+		m := bitMask(x.X, depth+1)
+		fb, fs, _ := intBits(from)
+		tb, _, _ := intBits(to)
+		if m == nil {
+			if !fs && fb <= 32 {
+				m = new(big.Int).Sub(new(big.Int).Lsh(big.NewInt(1), uint(fb)), big.NewInt(1))
+			} else {
+				return nil
+			}
+		}
+		if tb < m.BitLen() {
+			m = new(big.Int).And(m, new(big.Int).Sub(new(big.Int).Lsh(big.NewInt(1), uint(tb)), big.NewInt(1)))
+		}
+		return m
+	case *ssa.BinOp:
+		switch x.Op {
+		case token.SHL:
+			if c, ok := x.Y.(*ssa.Const); ok && c.Value != nil {
+				if k, ok := constant.Int64Val(c.Value); ok && k >= 0 && k < 64 {
+					m := bitMask(x.X, depth+1)
+					if m == nil {
+						return nil
+					}
+					r := new(big.Int).Lsh(m, uint(k))
+					if b, _, ok := intBits(x.Type()); ok && r.BitLen() > b {
+						return nil
+					}
+					return r
+				}
+			}
+		case token.SHR:
+			if c, ok := x.Y.(*ssa.Const); ok && c.Value != nil {
+				if k, ok := constant.Int64Val(c.Value); ok && k >= 0 && k < 64 {
+					m := bitMask(x.X, depth+1)
+					if m == nil {
+						return nil
+					}
+					return new(big.Int).Rsh(m, uint(k))
+				}
+			}
+		case token.AND:
+			a, b := bitMask(x.X, depth+1), bitMask(x.Y, depth+1)
+			switch {
+			case a != nil && b != nil:
+				return new(big.Int).And(a, b)
+			case a != nil:
+				return a
+			case b != nil:
+				return b
+			}
+		case token.OR, token.XOR:
+			a, b := bitMask(x.X, depth+1), bitMask(x.Y, depth+1)
+			if a != nil && b != nil {
+				return new(big.Int).Or(a, b)
+			}
+		}
+		return nil
+	case *ssa.UnOp:
+		if x.Op == token.MUL {
+			if b, signed, ok := intBits(x.Type()); ok && !signed && b <= 32 {
+				return new(big.Int).Sub(new(big.Int).Lsh(big.NewInt(1), uint(b)), big.NewInt(1))
+			}
+		}
+	case *ssa.Index, *ssa.Lookup, *ssa.Extract, *ssa.Call, *ssa.Parameter, *ssa.Phi:
+		if b, signed, ok := intBits(v.Type()); ok && !signed && b <= 32 {
+			return new(big.Int).Sub(new(big.Int).Lsh(big.NewInt(1), uint(b)), big.NewInt(1))
+		}
+	}
+	return nil
+}
+
+func disjointBits(a, b ssa.Value) bool {
+	ma, mb := bitMask(a, 0), bitMask(b, 0)
+	if ma == nil || mb == nil {
+		return false
+	}
+	return new(big.Int).And(ma, mb).Sign() == 0
 }
